@@ -376,6 +376,8 @@ class C17(Check):
     budget = (60, 400)
 
     def cases(self, tier, seed):
+        if tier != "quick":
+            yield dict(kind="repo-tests-under-invariants")
         n = 160 if tier == "quick" else 4000
         rng = np.random.default_rng([seed, 17])
         for i in range(n):
@@ -386,6 +388,8 @@ class C17(Check):
         contracts.install()
 
     def execute(self, case):
+        if case.get("kind") == "repo-tests-under-invariants":
+            return self._repo_tests()
         rng = np.random.default_rng([case["seed"], 170])
         nb, npatch, auto = case["bins"], case["patches"], case["auto"]
         L = Laws()
@@ -405,4 +409,32 @@ class C17(Check):
         return out
 
 
+def _repo_tests(self):
+    """The repository's own tests with the structural invariants enabled: a test that passes
+    without them and fails with them points at an invariant broken on a path the tests reach."""
+    import json
+    import os
+    import subprocess
+    import tempfile
+
+    from vlib.core import ERROR
+
+    with tempfile.TemporaryDirectory() as d:
+        counts = os.path.join(d, "counts.json")
+        env = dict(os.environ, PYTHONPATH="/verif:/verif/.deps", YAWVERIF_CONTRACT_COUNTS=counts, YAW_NUM_THREADS="1")
+        p = subprocess.run(["/venv/bin/python", "-m", "pytest", "-q", "-p", "no:cacheprovider", "--no-cov", "-p",
+                            "engines.pytest_contracts", "-x", "--rootdir", "/repo", "/repo/tests"],
+                           cwd=d, env=env, capture_output=True, text=True, timeout=900)
+        tail = (p.stdout + p.stderr).strip().splitlines()[-5:]
+        evals = json.load(open(counts)) if os.path.exists(counts) else {}
+    if p.returncode != 0:
+        broken = any("InvariantBroken" in line for line in (p.stdout + p.stderr).splitlines())
+        if broken:
+            return [result(VIOLATED, mechanism="invariant-broken-under-repo-tests", detail=dict(tail=tail), nontrivial=False)]
+        return [result(ERROR, detail=f"repository tests failed under the plugin: {tail}", nontrivial=False)]
+    return [result(HELD, cls="repo-tests", counters=dict({f"repo-tests:{k}": v for k, v in evals.items()}, repo_test_runs=1),
+                   nontrivial=sum(evals.values()) > 0, key="repo-tests", sample=dict(tail=tail[-1:], invariant_evaluations=evals))]
+
+
+C17._repo_tests = _repo_tests
 CHECK = C17()
